@@ -90,22 +90,31 @@ def monomial_matrix(dim, rng):
 
 
 def make_gate(desc, mode, rng):
-    """desc = {"kind": "ord"|"M"|"cb", "name": str, "q": [ints (controls first, then targets)]}"""
+    """desc = {"kind": "ord"|"M"|"cb"|"fin", "name": str, "q": [ints (controls first, then targets)]};
+    kind "fin" = FusedGate used as an input gate, with "members": [ord descs] and q = its qubits"""
     from qibo import gates, callbacks
     kind, q = desc["kind"], list(desc["q"])
     if kind == "M":
         return gates.M(*q, collapse=bool(desc.get("collapse", False)), register_name=desc.get("reg"))
     if kind == "cb":
         return gates.CallbackGate(callbacks.Norm())
+    if kind == "fin":
+        # a FusedGate given as INPUT (e.g. the output of an earlier fuse)
+        fg = gates.FusedGate(*q)
+        for m in desc["members"]:
+            fg.append(make_gate(m, mode, rng))
+        return fg
     nc, nt, ctor = table()[desc["name"]]
     controls, targets = q[:nc], q[nc:]
     if mode == "named":
         g = ctor(*targets)
+        g._desc = desc
     else:
         mat = int_matrix(2 ** nt, rng) if mode == "int" else monomial_matrix(2 ** nt, rng)
         g = gates.Unitary(mat, *targets, check_unitary=False)
     if controls:
         g = g.controlled_by(*controls)
+    g._desc = desc
     return g
 
 
@@ -116,6 +125,7 @@ def build(n, descs, mode="named", seed=0):
     for i, d in enumerate(descs):
         g = make_gate(d, mode, rng)
         g._vid = i
+        g._desc = d
         c.add(g)
     assert len(c.queue) == len(descs)
     return c
@@ -216,7 +226,61 @@ def gen_layers(rng):
     return n, out[:14]
 
 
+def canon(d):
+    return (d["name"], d["q"], [canon(m) for m in d["members"]]) if d["kind"] == "fin" else (d["name"], d["q"])
+
+
+def show(d):
+    if d["kind"] == "fin":
+        return "Fused[" + ",".join(show(m) for m in d["members"]) + "]"
+    return f"{d['name']}{tuple(d['q'])}"
+
+
+def gen_refuse(rng):
+    """the output of a real Circuit.fuse(k1) used as the input circuit (re-fusing, usually with another width)"""
+    from qibo import gates
+    while True:
+        n, descs = rng.choice([gen_random, gen_blocker, gen_dense, gen_layers])(rng)
+        descs = [d for d in descs if d["kind"] != "fin"]
+        if n >= 2 and len(descs) >= 3 and valid(n, descs):
+            break
+    c = build(n, descs)
+    f = c.fuse(max_qubits=rng.randint(1, min(n, 3)))
+    out = []
+    for g in f.queue:
+        if isinstance(g, gates.FusedGate):
+            out.append({"kind": "fin", "name": "FusedGate", "q": [int(x) for x in g.qubits], "members": [m._desc for m in g.gates]})
+        else:
+            out.append(g._desc)
+    if rng.random() < 0.5:      # a few more plain gates around the fused ones
+        for _ in range(rng.randint(1, 3)):
+            out.insert(rng.randint(0, len(out)), rand_gate(rng, n, p_m=0.05, p_cb=0.02))
+    return n, out
+
+
+def gen_fused_inputs(rng):
+    """random circuit with hand-made FusedGate inputs (1-3 ordinary members on <= 3 qubits)"""
+    table()
+    n = rng.randint(2, 6)
+    out = []
+    for _ in range(rng.randint(2, 10)):
+        if rng.random() < 0.3:
+            qs = rng.sample(range(n), rng.randint(1, min(3, n)))
+            members = []
+            for _ in range(rng.randint(1, 3)):
+                ar = rng.randint(1, len(qs))
+                members.append(og(rng.choice(BY_ARITY[ar]), *rng.sample(qs, ar)))
+            out.append({"kind": "fin", "name": "FusedGate", "q": sorted(qs), "members": members})
+        else:
+            out.append(rand_gate(rng, n, p_m=0.06, p_cb=0.03))
+    return n, out
+
+
 def gen_case(rng, i):
+    if i % 10 == 8:
+        return gen_refuse(rng)
+    if i % 10 == 9:
+        return gen_fused_inputs(rng)
     t = i % 8
     if t in (0, 1, 2):
         return gen_random(rng)
@@ -259,9 +323,9 @@ def observe_fuse(c, k):
     for g in fused.queue:
         if isinstance(g, gates.FusedGate) and id(g) not in orig_ids:
             assert list(g.target_qubits) == sorted(g.qubit_set) == list(g.qubits)
-            out.append((True, list(g.target_qubits), [m._vid for m in g.gates]))
+            out.append((True, list(g.target_qubits), [getattr(m, "_vid", 999) for m in g.gates]))
         else:
-            out.append((False, [], [g._vid]))
+            out.append((False, [], [getattr(g, "_vid", 999)]))
     nodes = captured["nodes"]
     pos = {id(nd): i for i, nd in enumerate(nodes)}
     n = c.nqubits
@@ -269,7 +333,7 @@ def observe_fuse(c, k):
     for nd in nodes:
         assert list(nd.target_qubits) == sorted(nd.qubit_set)
         assert all(0 <= q < n for q in list(nd.left_neighbors) + list(nd.right_neighbors))
-        sigs.append((sorted(nd.qubit_set), [m._vid for m in nd.gates], bool(nd.marked),
+        sigs.append((sorted(nd.qubit_set), [getattr(m, "_vid", 999) for m in nd.gates], bool(nd.marked),
                      [pos[id(nd.left_neighbors[q])] if q in nd.left_neighbors else None for q in range(n)],
                      [pos[id(nd.right_neighbors[q])] if q in nd.right_neighbors else None for q in range(n)]))
     return fused, out, sigs
@@ -420,6 +484,7 @@ def python_side_fuse_checks(c, fused, out, k):
     flat = [v for s in out for v in s[2]]
     if sorted(flat) != list(range(len(c.queue))):
         bad.append("gates lost or duplicated")
+        return bad
     for s in out:
         if s[0]:
             if len(s[1]) > k:
@@ -457,7 +522,7 @@ def run_fuse(run, rng, count, shard=400, n_exec=100):
                 fused, out, sigs = observe_fuse(c, k)
             except Exception as e:
                 n_raised += 1
-                run.case({"fuse": [n, k, [(d["name"], d["q"]) for d in descs]]}, nontrivial=False)
+                run.case({"fuse": [n, k, [canon(d) for d in descs]]}, nontrivial=False)
                 run.find(f"fuse:raises:{case_key(n, descs, k)}", f"Circuit.fuse raised {e!r} on a valid circuit",
                          {"mechanism": "fuse", "nqubits": n, "max_qubits": k, "descs": descs, "error": repr(e)})
                 continue
@@ -470,11 +535,11 @@ def run_fuse(run, rng, count, shard=400, n_exec=100):
             items.append((f"{idx}:cert", f"gtrace_equivn_b {n} (flat_map (sig_gates c{idx}) o{idx}) c{idx}"))
             meta.append((idx, n, descs, k, out, bad))
             groups = [s for s in out if s[0]]
-            run.case({"fuse": [n, k, [(d["name"], d["q"]) for d in descs]]},
+            run.case({"fuse": [n, k, [canon(d) for d in descs]]},
                      nontrivial=len(descs) >= 3 and len(groups) >= 1)
             if groups and len(descs) >= 4 and sum(1 for x in run.samples if x.get("mechanism") == "fuse") < 3:
                 run.sample({"mechanism": "fuse", "nqubits": n, "max_qubits": k,
-                            "circuit": [f"{d['name']}{tuple(d['q'])}" for d in descs],
+                            "circuit": [show(d) for d in descs],
                             "fused_queue": [(s[1], s[2]) if s[0] else s[2][0] for s in out]})
         files.append((f"C07_fuse_{s0 // shard}.v", header, items, meta))
     results = coq_parallel(run, files)
@@ -573,18 +638,28 @@ def run_light_cone(run, rng, count, shard=400, n_exec=60):
         for j, (n, descs, S) in enumerate(cases[s0:s0 + shard]):
             idx = s0 + j
             c = build(n, descs)
+            has_fin = any(d["kind"] == "fin" for d in descs)
             try:
                 lc, qmap = observe_light_cone(c, S)
+            except NotImplementedError as e:
+                if not has_fin:
+                    raise
+                # documented refusal: SpecialGate.on_qubits; must happen exactly when the model keeps a fused gate
+                header += f"Definition c{idx} : list gate := {coq_circuit(c)}.\n"
+                items.append((f"{idx}:refuse", f"lc_refuses c{idx} {nl(S)}"))
+                meta.append((idx, n, descs, S, [], "refusal"))
+                run.case({"light_cone": [n, S, [canon(d) for d in descs]]}, nontrivial=False)
+                continue
             except Exception as e:
                 n_raised += 1
-                run.case({"light_cone": [n, S, [(d["name"], d["q"]) for d in descs]]}, nontrivial=False)
+                run.case({"light_cone": [n, S, [canon(d) for d in descs]]}, nontrivial=False)
                 run.find(f"light_cone:raises:{case_key(n, descs, S)}", f"Circuit.light_cone raised {e!r} on a valid circuit",
                          {"mechanism": "light_cone", "nqubits": n, "qubits": S, "descs": descs, "error": repr(e)})
                 continue
             if any(not isinstance(q, (int, np.integer)) for g in lc.queue for q in g.qubits) or \
                     any(not hasattr(g, "_vid") for g in lc.queue):
                 n_raised += 1
-                run.case({"light_cone": [n, S, [(d["name"], d["q"]) for d in descs]]}, nontrivial=False)
+                run.case({"light_cone": [n, S, [canon(d) for d in descs]]}, nontrivial=False)
                 run.find(f"light_cone:malformed:{case_key(n, descs, S)}",
                          "Circuit.light_cone returned a gate acting on a qubit that is not in the qubit map",
                          {"mechanism": "light_cone", "nqubits": n, "qubits": S, "descs": descs})
@@ -605,23 +680,37 @@ def run_light_cone(run, rng, count, shard=400, n_exec=60):
             header += f"Definition k{idx} : list (nat * option (list nat)) := [{'; '.join(f'({v}, Some {nl(qs)})' for v, qs in kept)}].\n"
             items.append((f"{idx}:out", f"lc_out_eqb (light_cone_model c{idx} {nl(S)}) ({len(cone)}, {nl(cone)}, k{idx})"))
             items.append((f"{idx}:cert", f"lc_cert_b c{idx} {nl(S)} {nl(cone)} (map fst k{idx})"))
-            meta.append((idx, n, descs, S, bad))
-            run.case({"light_cone": [n, S, [(d["name"], d["q"]) for d in descs]]},
+            if has_fin:
+                items.append((f"{idx}:norefuse", f"negb (lc_refuses c{idx} {nl(S)})"))
+            meta.append((idx, n, descs, S, bad, "fin" if has_fin else "normal"))
+            run.case({"light_cone": [n, S, [canon(d) for d in descs]]},
                      nontrivial=0 < len(kept) < len(descs))
             if 0 < len(kept) < len(descs) and sum(1 for x in run.samples if x.get("mechanism") == "light_cone") < 2:
                 run.sample({"mechanism": "light_cone", "nqubits": n, "qubits": S,
-                            "circuit": [f"{d['name']}{tuple(d['q'])}" for d in descs],
+                            "circuit": [show(d) for d in descs],
                             "kept": kept, "qubit_map": {str(a): b for a, b in qmap.items()}})
         files.append((f"C07_lc_{s0 // shard}.v", header, items, meta))
     results = coq_parallel(run, files)
-    n_cert = n_struct = 0
+    n_cert = n_struct = n_refusals = 0
     for (name, header, items, meta), res in zip(files, results):
         if res is None:
             run.oblige(f"correspondence file {name} compiles", False, "correspondence")
             run.find(f"coq:{name}", f"generated file {name} does not compile", {"file": name}, concrete=False)
             continue
-        for (idx, n, descs, S, bad) in meta:
+        for (idx, n, descs, S, bad, mode) in meta:
             rep = {"mechanism": "light_cone", "nqubits": n, "qubits": S, "descs": descs}
+            if mode == "refusal":
+                n_refusals += 1
+                if res[f"{idx}:refuse"]:
+                    n_cert += 1
+                    n_struct += 1
+                else:
+                    run.find(f"light_cone:raises:{case_key(n, descs, S)}",
+                             "Circuit.light_cone raised NotImplementedError although no FusedGate lies in the light cone",
+                             rep, concrete=True)
+                continue
+            if mode == "fin" and not res[f"{idx}:norefuse"]:
+                bad = bad + ["a FusedGate lies in the light cone but light_cone did not refuse"]
             cert, so = res[f"{idx}:cert"], res[f"{idx}:out"]
             n_cert += cert
             n_struct += so
@@ -638,6 +727,7 @@ def run_light_cone(run, rng, count, shard=400, n_exec=60):
     run.oblige("light_cone: model output equals the implementation's on every case",
                n_struct == len(cases) and not n_raised, "correspondence")
     run.notes["light_cone_cases"] = len(cases)
+    run.notes["light_cone_agreed_refusals_fused_gate_in_cone"] = n_refusals
     n_ok = n_run = 0
     for (n, descs, S) in cases:
         if n_run >= n_exec:
@@ -670,8 +760,9 @@ def refuse_check(run):
     psi = np.arange(1, 9).astype(complex)
     same = np.array_equal(exact_state(c, psi), exact_state(ff, psi))
     run.case({"refuse": descs})
+    run.oblige("re-fusing a fused circuit keeps every gate and the final state (regression of the repaired defect)",
+               members == len(descs) and same, "test")
     if members != len(descs) or not same:
-        run.refuted.append("fuse_equiv for circuits that already contain a FusedGate")
         run.find("refuse:fused-gate-dropped",
                  f"Circuit.fuse applied to a fused circuit drops its FusedGate objects: {n_in} fused gates in, "
                  f"{len(ff.queue)} gates out, final state differs",
@@ -682,8 +773,6 @@ def static_obligations(run):
     ths = vcore.props_theorems("C07/Props.v")
     ok, pa = vcore.static_assumptions("C07/Props")
     for t in ths:
-        if t.endswith("_refuted"):
-            run.refuted.append(f"{t} (Coq witness: the negation of fuse_equiv for circuits containing a FusedGate)")
         run.oblige(f"C07/Props.{t}", ok and t in pa, "theorem")
         if ok and t in pa and not pa[t].startswith("Closed"):
             run.axioms.add(f"{t}: {pa[t]}")
@@ -705,7 +794,9 @@ def main(run):
                     "the commutation of gates with disjoint supports (sem_respects is stated for every interpretation with "
                     "that property; the instance for matrices belongs to C01)",
                     "harness/c07.py observation code (wraps _Queue.from_fused and Gate.on_qubits at run time)"]
-    run.assumptions += ["circuits contain no noise channels (fusion absorbs a Channel into a FusedGate whose execution raises)",
+    run.assumptions += ["a FusedGate in the input circuit is an opaque special letter (its own matrix = product of its members is "
+                        "matrix_fused, exercised by the exact-execution test)",
+                        "circuits contain no noise channels (fusion absorbs a Channel into a FusedGate whose execution raises)",
                         "light_cone_ok's last algebraic step (partial trace ignores operations outside S) is a premise of "
                         "the corollary, checked only by the exact-execution test"]
     static_obligations(run)
@@ -718,7 +809,8 @@ def main(run):
         run.checker_cmds.append("coqchk -o -silent -Q theories QV QV.C07.Props")
         run.oblige("coqchk re-checks the compiled cone of C07/Props (no axioms)", rc == 0 and "Axioms: <none>" in out, "kernel-recheck")
     return run.finish(level="proof", rule=(
-        "random (n<=6, len<=12, arities 1-3, controlled gates, M incl. collapse, CallbackGate), adversarial "
+        "random (n<=6, len<=12, arities 1-3, controlled gates, M incl. collapse, CallbackGate), circuits containing "
+        "FusedGate inputs (outputs of a real fuse re-fused with another width; hand-made fused inputs), adversarial "
         "(non-commuting gates between fusion partners), dense and brickwork circuits; max_qubits 0..n+1; light-cone "
         "subsets of size 0..3; a fuse case is non-trivial if the circuit has >=3 gates and at least one fused group is "
         "formed, a light-cone case if some but not all gates are kept; distinct by (n, k or S, gate list)"))
